@@ -182,6 +182,7 @@ func (in *EVMInterpreter) Run(contract *Contract, input []byte, readOnly bool) (
 		if steps%1000 == 0 && atomic.LoadInt32(&in.evm.abort) != 0 {
 			break
 		}
+		verifC11Step(in, contract, pc, stack, mem)
 		// Capture pre-execution values for tracing.
 		//logged, pcCopy, gasCopy = false, pc, contract.Gas
 
